@@ -180,6 +180,28 @@ pub fn scenarios(tier: Tier) -> Vec<LinkScenario<fn() -> Box<dyn Probe>>> {
             }
         }
     }
+    // bidirectional traffic on two ordered channels per direction, other resend times (0 = every tick, = dt, 2.5 dt)
+    for (name, r2, dts) in [("R=0", 0u64, vec![100u64]), ("R=dt", 100, vec![100]), ("R=2.5dt", 250, vec![100]), ("R=300 dt irregular", 300, vec![100, 150, 300, 450])] {
+        if tier == Tier::Quick && name != "R=dt" {
+            continue;
+        }
+        let chans = || vec![Chan::new(0, Kind::Ordered, 100_000, r2), Chan::new(5, Kind::Ordered, 100_000, r2.max(50) * 2)];
+        let mut cfg = LinkCfg::base(&format!("bidirectional two ordered channels {}", name), chans(), chans());
+        cfg.dt_ms = dts.clone();
+        cfg.horizon = 4;
+        cfg.tail = (r2.max(50) * 2).div_ceil(*dts.iter().min().unwrap()) as u32 + 5;
+        cfg.script = vec![
+            Send { tick: 0, dir: 0, ch: 0, len: 1 },
+            Send { tick: 0, dir: 0, ch: 5, len: 1201 },
+            Send { tick: 0, dir: 1, ch: 0, len: 1201 },
+            Send { tick: 1, dir: 1, ch: 5, len: 1 },
+            Send { tick: 1, dir: 0, ch: 0, len: 70 },
+        ];
+        out.push(LinkScenario {
+            cfg,
+            probe: (|| Box::new(OrderedProbe::new()) as Box<dyn Probe>) as fn() -> Box<dyn Probe>,
+        });
+    }
     out
 }
 
